@@ -139,6 +139,7 @@ var properties = map[string][]harnessSpec{
 		{Name: "cmd.VerifC12LongInput", Quick: map[string]int{"C12.longChords": 520}, Thorough: map[string]int{"C12.longChords": 2000}, Marks: end},
 		{Name: "cmd.VerifC12LongWrite", Quick: map[string]int{"C12.longInstances": 400}, Thorough: map[string]int{"C12.longInstances": 1500}, Marks: end},
 		{Name: "cmd.VerifC12InfoOutputs", Marks: end},
+		{Name: "cmd.VerifC12EmptyInputPaths", Marks: end},
 		{Name: "cmd.VerifC12DebugFlag", Marks: []string{"end", "failed"}},
 		{Name: "astconv.VerifC05Classifier", Quick: map[string]int{"C05.maxChords": 2, "C05.preemptions": 1}, Thorough: map[string]int{"C05.maxChords": 3, "C05.preemptions": 2}, Marks: []string{"end", "classified", "refused"}},
 		{Name: "op.VerifC14Chain", Quick: map[string]int{"C14.maxLen": 2}, Thorough: map[string]int{"C14.maxLen": 3}, Marks: end},
